@@ -976,6 +976,37 @@ def exceptionsOk (F : Facts) : Bool :=
 /-- every possibly-unbound read of a local is an audited one -/
 def localsOk (F : Facts) : Bool := F.maybeUnbound.all (·.audited)
 
+/-! ## Locals that are certainly unbound where they are read
+
+The second source of `NameError`: `UnboundLocalError` is its subclass.  The translator
+(`harness/extract_facts.py`, class `DeadLoads`) runs a definite-UNassignment analysis over every
+function: a local is *certainly unbound* at a point when every path from the function's entry to that
+point leaves it unbound — nothing has bound it yet, a `del` has removed it, or an
+`except E as name:` clause has ended (Python 3 deletes `name` there, however the clause is left).
+A read of such a local raises `UnboundLocalError` whenever it is reached.  Conditionally bound
+locals (bound on some path) are never listed: those stay hints (`UnboundFact`). -/
+
+/-- a read (or `del`) of a local that is certainly unbound where it is executed -/
+structure DeadLoad where
+  mod : ModId
+  fn : Name
+  var : Name
+  line : Nat
+  /-- what left the name unbound: `0` the end of `except … as var`, `1` `del var`, `2` nothing has bound it yet -/
+  cause : Nat
+  deriving DecidableEq, Repr, Inhabited
+
+/-- the `NameError`s (`UnboundLocalError`s) that the certainly-unbound reads stand for -/
+def localNameErrors (D : List DeadLoad) : List Err :=
+  D.map (fun d => Err.nameError d.mod (some d.fn) d.var)
+
+/-- the certainly-unbound reads of one function -/
+def deadLoadsOf (D : List DeadLoad) (m : ModId) (fn : Name) : List DeadLoad :=
+  D.filter (fun d => d.mod == m && d.fn == fn)
+
+/-- no function of the tree reads a local that is certainly unbound -/
+def deadLoadsOk (D : List DeadLoad) : Bool := D.isEmpty
+
 /-! ## Diagnosis (what the driver prints; mirrors `resolvesAll`, but collects the failures) -/
 
 structure Finding where
